@@ -321,6 +321,20 @@ def _eq_byte(ex, st, a, b):
 def b_strchr(ex, st, args, ins):
     p = _ptr(ex, st, args[0]); c = args[1]
     c = c & 0xff if isinstance(c, int) else z3.Extract(7, 0, c)
+    if not isinstance(c, int):
+        # concrete haystack, symbolic needle: one symbolic pointer instead of a fork per position
+        hay = []; i = 0
+        while i < 64:
+            b = st.mem.load(p + i, 1)
+            if not isinstance(b, int): hay = None; break
+            hay.append(b)
+            if b == 0: break
+            i += 1
+        if hay is not None and hay and hay[-1] == 0:
+            res = z3.BitVecVal(0, 64)
+            for k in range(len(hay) - 1, -1, -1):
+                res = z3.If(c == z3.BitVecVal(hay[k], 8), z3.BitVecVal(p + k, 64), res)
+            return res
     i = 0
     while True:
         b = st.mem.load(p + i, 1)
@@ -343,8 +357,16 @@ def b_strrchr(ex, st, args, ins):
 def b_memchr(ex, st, args, ins):
     p = _ptr(ex, st, args[0]); c = args[1]; n = _len(ex, st, args[2], 'memchr n')
     c = c & 0xff if isinstance(c, int) else z3.Extract(7, 0, c)
+    if n: st.mem.resolve(p, n)
+    hay = [st.mem.load(p + i, 1) for i in range(n)]
+    if not isinstance(c, int) or not all(isinstance(b, int) for b in hay):
+        # one symbolic pointer instead of a fork per position
+        res = z3.BitVecVal(0, 64)
+        for k in range(n - 1, -1, -1):
+            res = z3.If(to_bv(c, 8) == to_bv(hay[k], 8), z3.BitVecVal(p + k, 64), res)
+        return res
     for i in range(n):
-        if _eq_byte(ex, st, st.mem.load(p + i, 1), c): return p + i
+        if hay[i] == c: return p + i
     return 0
 
 @builtin('strstr')
